@@ -30,7 +30,7 @@ extern int vf_failed;
 #else
 #define VASSUME(c) __CPROVER_assume(c)
 #ifdef WITNESS
-#define VASSERT(c, m) ((void)0)
+#define VASSERT(c, m) ((void)(c))
 #define VEND() __CPROVER_assert(0, "WITNESS end of harness reachable")
 #else
 #define VASSERT(c, m) __CPROVER_assert((c), m)
